@@ -140,6 +140,16 @@ def listSet {α : Type} (xs : List α) (i : Int) (v : α) : List α :=
   let j := if i < 0 then i + xs.length else i
   if j < 0 then xs else xs.set j.toNat v
 
+/-- `del xs[i]` for an in-range (possibly negative) index -/
+def listDel {α : Type} (xs : List α) (i : Int) : List α :=
+  let j := if i < 0 then i + xs.length else i
+  if j < 0 then xs else xs.eraseIdx j.toNat
+
+/-- `xs.insert(i, v)`: the position is clamped to `0 … len` (negative positions count from the end) -/
+def listInsert {α : Type} (xs : List α) (i : Int) (v : α) : List α :=
+  let p := GambitV.pyInsertPos xs.length i
+  xs.take p ++ [v] ++ xs.drop p
+
 /-- `d[k]` / `d.get(k)` -/
 def dictGet? {κ ν : Type} [BEq κ] : List (κ × ν) → κ → Option ν
   | [], _ => none
